@@ -812,6 +812,13 @@ def complex_netcdf_rule(ctx, rid):
             rr.bad(ctx.finding(rid, f, c, "invalid_netcdf is never set to True before to_netcdf", construct="invalid_netcdf missing"), "option set")
 
 
+def _parents_of(n):
+    p = getattr(n, "_parent", None)
+    while p is not None:
+        yield p
+        p = getattr(p, "_parent", None)
+
+
 def reload_reads_rule(ctx, rid, cls="Harvester"):
     """C05.R8 / C15.R11: the reload called before a synced merge really reads the file.  A path through load_full_* that
     finds the file present and returns without reading it is a cache; a cache validated by state that all objects of the
@@ -860,9 +867,44 @@ def reload_reads_rule(ctx, rid, cls="Harvester"):
         n, attr = shared[0]
         rr.bad(ctx.finding(rid, f, n.ast, "%s skips reading the file when `%s` holds, and `self.%s` is one container shared by every %s object (class-level, mutated through self): after another object on the same file has saved, this object takes the other's record for its own, "
                            "keeps its stale copy, merges into it and overwrites the file -- the other object's points are dropped" % (lname, norm(n.ast)[:70], attr, cls), construct="reload-skipped-shared-state"), "reload reads")
-    else:
-        raise AnalysisError("idiom changed: %s can return without reading a file that is there (a cache decided by `%s`); whether that cache is sound is not analysed" % (lname, "; ".join(norm(n.ast)[:50] for n in deciders[:2])))
-    return rr
+        return rr
+    # a per-object cache: the skip is decided by a token attribute recorded next to the load.  The token speaks for the
+    # in-memory copy only if every method that replaces the copy also touches the token.
+    from ..pathcond import path_tests, canon
+    held = {norm(t_)[5:] for r in reads for p_ in _parents_of(r.ast) if isinstance(p_, ast.Assign) for t_ in p_.targets if norm(t_).startswith("self.")}
+    for n_ in g.nodes:
+        if n_.kind == "stmt" and isinstance(n_.ast, ast.Assign) and norm(n_.ast.targets[0]).startswith("self.") and any(r_.id == n_.id for r_ in reads):
+            held.add(norm(n_.ast.targets[0])[5:])
+    tokens = set()
+    for n in deciders:
+        for x in ast.walk(n.ast):
+            if isinstance(x, ast.Attribute) and isinstance(x.value, ast.Name) and x.value.id == "self" and x.attr not in held:
+                if any(isinstance(a_, ast.Assign) and any(norm(t_) == "self." + x.attr for t_ in a_.targets) for a_ in ast.walk(f.node)):
+                    tokens.add(x.attr)
+    if len(held) == 1 and tokens and klass is not None:
+        V = sorted(held)[0]
+        offenders = []
+        n_repl = 0
+        for m_ in klass.methods.values():
+            if m_.name in ("__init__", lname):
+                continue
+            for a_ in ast.walk(m_.node):
+                if isinstance(a_, ast.Assign) and any(norm(t_) == "self." + V for t_ in a_.targets) and not (isinstance(a_.value, ast.Constant) and a_.value.value is None):
+                    n_repl += 1
+                    no_file = any((canon(t_) in ("self.data_name is None",) and pol) or (canon(t_) in ("self.data_name is not None",) and not pol) for t_, pol in path_tests(m_.node, a_))
+                    touches = any(isinstance(b_, (ast.Assign, ast.AugAssign, ast.Delete)) and any(norm(t_) in ("self." + tk) or norm(t_).startswith("self." + tk + "[") for tk in tokens
+                                                                                                    for t_ in (b_.targets if not isinstance(b_, ast.AugAssign) else [b_.target])) for b_ in ast.walk(m_.node)) or \
+                        any(isinstance(c_, ast.Call) and isinstance(c_.func, ast.Attribute) and any(norm(c_.func.value) == "self." + tk for tk in tokens) for c_ in ast.walk(m_.node))
+                    if not touches and not no_file:
+                        offenders.append((m_, a_))
+        if offenders:
+            m_, a_ = offenders[0]
+            ctx.touch(m_)
+            rr.bad(ctx.finding(rid, m_, a_, "%s skips reading the file while `self.%s` still matches the file, but %s replaces `self.%s` without touching that record (also: %s): afterwards the in-memory copy differs from the file, the reload before the next synced merge is skipped, "
+                               "and data that was never meant to be saved (or a stale copy) is merged and written" % (lname, "`, `self.".join(sorted(tokens)), m_.name, V, ", ".join(sorted({o[0].name for o in offenders[1:]})) or "no other method"),
+                               construct="reload-token-not-updated " + m_.name), "reload reads")
+            return rr
+    raise AnalysisError("idiom changed: %s can return without reading a file that is there (a cache decided by `%s`); whether that cache is sound is not analysed" % (lname, "; ".join(norm(n.ast)[:50] for n in deciders[:2])))
 
 
 def tmp_keeps_extension_rule(ctx, rid):
